@@ -1,6 +1,6 @@
 (* C03 — the lemmas used by Properties/C03.v: the fuel of every loop of the models suffices. *)
 From Coq Require Import List ZArith Bool Lia ZifyBool NArith.
-From Lou Require Import Gen.GConst Gen.GChain Model.Table Model.Ref Model.Compile Model.Engine Model.Finish Model.Pass Model.BackPass Model.Hyph Model.Back.
+From Lou Require Import Gen.GConst Gen.GChain Gen.GProgress Model.Table Model.Ref Model.Compile Model.Engine Model.Finish Model.Pass Model.BackPass Model.Hyph Model.Back.
 From Lou Require Import Proofs.EngineProofs Proofs.PassProofs.
 Import ListNotations.
 Local Open Scope Z_scope.
@@ -23,8 +23,8 @@ Qed.
 Definition smeasure (inp : list Z) (s : pstate) : Z :=
   2 * (len inp - ps_pos s) + (if ps_inc s then 1 else 0).
 
-Lemma sstep_measure chain inp cap s s' :
-  ps_pos s < len inp -> sstep chain inp cap s = (s', true) ->
+Lemma sstep_measure kind chain inp cap s s' :
+  ps_pos s < len inp -> sstep kind chain inp cap s = (s', true) ->
   ps_pos s' <= len inp /\ smeasure inp s' < smeasure inp s.
 Proof.
   intros Hp. unfold sstep, smeasure. cbv zeta.
@@ -45,7 +45,9 @@ Proof.
   destruct (do_action inp cap r m (ps_out s) (ps_pm s)) as [[o p] [np|]] eqn:Ea; [|discriminate].
   apply do_action_newpos in Ea.
   intros H. inversion H. cbn [ps_pos ps_inc].
-  destruct (np =? ps_pos s) eqn:En; cbn [negb]; lia.
+  (* the REGENERATED progress expressions of makeCorrections / translatePass *)
+  unfold stage_inc, GProgress.fwd_correct_inc, GProgress.fwd_pass_inc.
+  destruct kind; destruct (np =? ps_pos s) eqn:En; lia.
 Qed.
 
 Lemma sloop_total kind chain is_space inp cap : forall fuel s,
@@ -56,7 +58,7 @@ Proof.
   - unfold smeasure in Hm. destruct (ps_inc s); lia.
   - cbn [sloop]. unfold sn. destruct (ps_pos s >=? len inp) eqn:E.
     + unfold sfinish. discriminate.
-    + destruct (sstep chain inp cap s) as [s' go] eqn:Es. destruct go.
+    + destruct (sstep kind chain inp cap s) as [s' go] eqn:Es. destruct go.
       * apply sstep_measure in Es; [|lia]. apply IH; lia.
       * unfold sfinish. discriminate.
 Qed.
@@ -98,7 +100,7 @@ Qed.
 
 Lemma bdo_action_ok inp cap r m out pm o p np : len out <= cap ->
   bdo_action inp cap r m out pm = (o, p, Some np) ->
-  (len out <= len o <= cap) /\ (np = m_er m \/ np = m_end m).
+  (len out <= len o <= cap) /\ (np = m_er m \/ np = Z.max (m_er m) (m_end m)).
 Proof.
   intros Hc. unfold bdo_action.
   destruct (bcopy_chars inp cap out pm (m_start m) (m_sr m)) as [[out1 pm1]|] eqn:E1; [|discriminate].
@@ -138,6 +140,7 @@ Proof.
   intros Hp. unfold bpass_test.
   destruct (bdo_test inp (p_test r) pos (-1) (-1)) as [[[em sr] er]|] eqn:Et; [|discriminate].
   apply bdo_test_range in Et; [|exact Hp|unfold len; lia].
+  destruct (_ <? pos); [discriminate|].
   destruct (sr =? -1); intros H; injection H as <-; cbn [m_er m_end]; lia.
 Qed.
 
@@ -156,8 +159,8 @@ Definition bmeasure (inp : list Z) (cap : Z) (s : bpstate) : Z :=
 Definition binv (inp : list Z) (cap : Z) (s : bpstate) : Prop :=
   -1 <= bp_pos s <= len inp /\ (bp_inc s = true -> 0 <= bp_pos s) /\ len (bp_out s) <= cap.
 
-Lemma bsstep_measure chain inp cap s s' :
-  binv inp cap s -> bp_pos s < len inp -> bsstep chain inp cap s = (s', true) ->
+Lemma bsstep_measure kind chain inp cap s s' :
+  binv inp cap s -> bp_pos s < len inp -> bsstep kind chain inp cap s = (s', true) ->
   binv inp cap s' /\ bmeasure inp cap s' < bmeasure inp cap s.
 Proof.
   intros (Hp & Hi & Hc) Hlt. unfold bsstep, bmeasure, binv. cbv zeta.
@@ -183,7 +186,9 @@ Proof.
   intros H. inversion H. cbn [bp_pos bp_inc bp_out].
   assert (Hmul : (cap - len o) * (len inp + 2) <= (cap - len (bp_out s)) * (len inp + 2)).
   { apply Z.mul_le_mono_nonneg_r; lia. }
-  destruct (np >? bp_pos s) eqn:En; split; try lia.
+  (* the REGENERATED progress expressions of the backward makeCorrections / translatePass *)
+  unfold bstage_inc, GProgress.back_correct_inc, GProgress.back_pass_inc.
+  destruct kind; destruct (np >? bp_pos s) eqn:En; split; try lia.
 Qed.
 
 Lemma bsloop_total kind chain is_space inp cap : forall fuel s,
@@ -197,7 +202,7 @@ Proof.
     destruct (bp_inc s); lia.
   - cbn [bsloop]. unfold bsn. destruct (bp_pos s >=? len inp) eqn:E.
     + unfold bsfinish. discriminate.
-    + destruct (bsstep chain inp cap s) as [s' go] eqn:Es. destruct go.
+    + destruct (bsstep kind chain inp cap s) as [s' go] eqn:Es. destruct go.
       * apply bsstep_measure in Es; [|exact Hi|lia]. destruct Es as (Hi' & Hm'). apply IH; [exact Hi'|lia].
       * unfold bsfinish. discriminate.
 Qed.
